@@ -53,6 +53,9 @@ pub fn families(a: &Args, rng: &mut Rng) -> Vec<Fam> {
     for t in loop_family(&pool) {
         v.push(Fam { t, fam: "loop-of-loop" });
     }
+    for t in quotient_family(&pool) {
+        v.push(Fam { t, fam: "derivative-as-operand" });
+    }
     for t in adjacent_range_family(&pool) {
         v.push(Fam { t, fam: "adjacent-ranges" });
     }
@@ -182,7 +185,7 @@ pub fn drive_c01(a: &Args) {
                 mgr = ReManager::new();
             }
         }
-        if id % 2 == 0 || a.thorough() {
+        if (id % 2 == 0 || a.thorough()) && !f.t.has_quot() {
             smt_jobs.push((id, smt_jobs.len()));
         }
     }
@@ -956,7 +959,7 @@ pub fn drive_c10(a: &Args) {
     for _ in 0..a.sz(150, 3000) {
         pats.push(random_term(&mut rng, 3, &pool));
     }
-    let pats: Vec<T> = pats.into_iter().map(|t| t.smt_form()).filter(|t| t.cost() <= COST_LIMIT).collect();
+    let pats: Vec<T> = pats.into_iter().filter(|t| !t.has_quot()).map(|t| t.smt_form()).filter(|t| t.cost() <= COST_LIMIT).collect();
     let subjects = {
         let mut all: Vec<Vec<u32>> = vec![vec![]];
         let mut fr: Vec<Vec<u32>> = vec![vec![]];
